@@ -167,7 +167,7 @@ def _get_aliases(result_types: dict, package_name: str) -> dict[str, set[str]]:
                     ):
                         fullname = key.node.target.type.fullname
                     elif isinstance(type_value, mypy_types.CallableType):
-                        bound_args = type_value.bound_args
+                        bound_args = _get_bound_args(type_value)
                         if bound_args and hasattr(bound_args[0], "type"):
                             fullname = bound_args[0].type.fullname  # type: ignore[union-attr]
                     elif hasattr(key, "node") and isinstance(key.node, mypy_nodes.Var):
@@ -186,8 +186,11 @@ def _get_aliases(result_types: dict, package_name: str) -> dict[str, set[str]]:
                     continue
 
             if in_package:
-                if isinstance(type_value, mypy_types.CallableType) and hasattr(type_value.bound_args[0], "type"):
-                    fullname = type_value.bound_args[0].type.fullname  # type: ignore[union-attr]
+                if isinstance(type_value, mypy_types.CallableType) and hasattr(
+                    _get_bound_args(type_value)[0],
+                    "type",
+                ):
+                    fullname = _get_bound_args(type_value)[0].type.fullname  # type: ignore[union-attr]
                 elif isinstance(type_value, mypy_types.Instance):
                     fullname = type_value.type.fullname
                 elif isinstance(key, mypy_nodes.TypeVarExpr):
@@ -200,3 +203,13 @@ def _get_aliases(result_types: dict, package_name: str) -> dict[str, set[str]]:
                 aliases[name].add(fullname)
 
     return aliases
+
+
+def _get_bound_args(callable_type: mypy_types.CallableType) -> list:
+    """Get the bound args of a callable; newer mypy versions removed the attribute, so we fall back on the class."""
+    bound_args = getattr(callable_type, "bound_args", None)
+    if bound_args is not None:
+        return bound_args
+    if callable_type.is_type_obj():
+        return [callable_type.ret_type]
+    return [None]
